@@ -65,7 +65,7 @@ def build(m):
                          data=np.array([[int(v) for v in p] for _, p in m['nodes']], dtype=np.int64), silent=True)
     el = {t: FEMAttribute(t, ids=np.array([e for e, _ in b]), data=np.array([c for _, c in b]), silent=True)
           for t, b in m['blocks'].items()}
-    fd = G.quiet(lambda: FEMData(nodes=nodes, elements=FEMElementalAttribute('ELEMENT', el)))
+    fd = G.quiet(lambda: FEMData(nodes=nodes, elements=FEMElementalAttribute('ELEMENT', G.insertion_order(el))))
     assert fd.nodes.data.dtype.kind == 'i'
     return fd
 
